@@ -175,6 +175,40 @@ def _sweep():
                 continue
             setattr(mod, name, new)
             _installed.append((modname, name))
+        # the conversions int(...) / float(...) keep symbolic numbers symbolic where a module uses the names for nothing else
+        for name, new in (("int", sym_int), ("float", sym_float)):
+            if (modname, name) in _installed or name in vars(mod):
+                continue
+            if _only_called(mod, name):
+                setattr(mod, name, new)
+                _installed.append((modname, name))
+
+
+def _only_called(mod, name):
+    """True if the module's source uses the builtin `name` only as the function of a call (annotations aside)."""
+    import ast
+    import inspect
+    try:
+        tree = ast.parse(inspect.getsource(mod))
+    except (OSError, TypeError, SyntaxError):
+        return False
+    future_annotations = any(isinstance(n, ast.ImportFrom) and n.module == "__future__" and any(a.name == "annotations" for a in n.names) for n in tree.body)
+    called, other = set(), set()
+    ann_nodes = set()
+    for n in ast.walk(tree):
+        for field in ("annotation", "returns"):
+            a = getattr(n, field, None)
+            if a is not None:
+                ann_nodes.update(id(x) for x in ast.walk(a))
+    for n in ast.walk(tree):
+        if isinstance(n, ast.Call) and isinstance(n.func, ast.Name) and n.func.id == name:
+            called.add(id(n.func))
+    for n in ast.walk(tree):
+        if isinstance(n, ast.Name) and n.id == name and id(n) not in called:
+            if id(n) in ann_nodes and future_annotations:
+                continue
+            other.add(id(n))
+    return bool(called) and not other
 
 
 def installed_names():
